@@ -1,5 +1,677 @@
-import MgProof.C12.Lemmas
-import MgProof.C12.LemmasAes
-import MgProof.C12.LemmasDes
+import MgProof.C12.LemmasApi
+/-!
+# C12 — property theorems (AES / DES / Triple-DES in ECB, CBC, CFB, OFB, CTR)
+
+Statement (properties.jsonl): for every key, IV or nonce, message and length,
+AES-128/192/256, DES and Triple-DES in the five modes produce exactly the output defined
+by FIPS-197 / FIPS 46-3 with SP 800-38A chaining (CTR over the library's incrementing
+128/64-bit counter), and decryption inverts encryption.  For the streaming modes, feeding
+a message in any sequence of chunks while carrying the IV/offset state between calls
+gives the same bytes as a single call; lengths that are not a block multiple in ECB/CBC
+and other invalid parameters are rejected.
+
+Layout.  The model of `aes.c` / `des.c` / `tdes.c` is `MgModel.C12.{ecb,cbc,cfb,ofb,ctr}`
+over a context `Cx` built by `aesSetKey` / `desSetKey` / `tdesSetKey`
+(MgModel/C12/Modes.lean, Ciphers.lean); SP 800-38A is `MgModel.C12.Spec.*`; FIPS-197 is
+`MgModel.C12.Aes`, FIPS 46-3 is `MgModel.C12.Des`.
+
+* Part A — mode theorems for ANY context that is *standard* for a pair of block
+  functions `E`, `D` (`Std cx E D`: both keep the block length, `D ∘ E = id`, wired as
+  the set-key functions wire them).  Quantified over every message, every length, every
+  IV / nonce / stream_block, every offset, every chunking.
+* Part B — the three set-key functions produce standard contexts for the FIPS block
+  functions, for every key: in particular `InvCipher ∘ Cipher = id` (AES, all three key
+  sizes, all 2^128 blocks) and DES / 3DES deciphering inverts enciphering.
+* NOT a theorem (see DESIGN.md §3 C12 and the manifest): that the optimised primitives in
+  `crypt/openssl/*.c` compute `Aes.cipher` / `Des.cryptBlock`; this is what the
+  correspondence runs and the standards' known-answer vectors check.
+-/
 namespace MgProof.C12
+open MgModel.C12
+
+/-! ## Part A.1 — every mode computes the SP 800-38A definition -/
+
+/-- **ECB = SP 800-38A §6.1**: a whole number of blocks, each through the forward cipher
+(encrypting context) or the inverse cipher (decrypting context). -/
+theorem ecb_standard {cx : Cx} {E D : Bytes → Bytes} (h : Std cx E D) (input : Bytes)
+    (hm : cx.mode = 0) (hl : input.length % cx.bs = 0) :
+    ecb cx input = .ok (Spec.ecb (match cx.dir with | .enc => E | .dec => D)
+      (chunks cx.bs input)).flatten := by
+  rw [ecb_ok cx input hm hl, h.blk (by omega)]; rfl
+
+/-- **CBC = SP 800-38A §6.2**, both directions. -/
+theorem cbc_standard {cx : Cx} {E D : Bytes → Bytes} (h : Std cx E D) (iv input : Bytes)
+    (hm : cx.mode = 1) (hl : input.length % cx.bs = 0) (hiv : iv.length = cx.bs) :
+    (cbc cx iv input).map Prod.fst = .ok (match cx.dir with
+      | .enc => (Spec.cbcEnc E iv (chunks cx.bs input)).flatten
+      | .dec => (Spec.cbcDec D iv (chunks cx.bs input)).flatten) := by
+  rw [cbc_ok cx iv input hm hl hiv, h.blk (by omega)]
+  cases cx.dir <;> simp [Except.map, cbcEnc_eq_spec, cbcDec_eq_spec]
+
+/-- **CFB (s = b) = SP 800-38A §6.3**, both directions, EVERY message length (the last
+segment may be partial). -/
+theorem cfb_standard {cx : Cx} {E D : Bytes → Bytes} (h : Std cx E D) (iv input : Bytes)
+    (hm : cx.mode = 2) (hiv : iv.length = cx.bs) :
+    (cfb cx ⟨iv, 0⟩ input).map Prod.fst = .ok (match cx.dir with
+      | .enc => (Spec.cfbEnc E iv (chunks cx.bs input)).flatten
+      | .dec => (Spec.cfbDec E iv (chunks cx.bs input)).flatten) := by
+  rw [cfb_ok cx ⟨iv, 0⟩ input hm h.bs_pos hiv, h.str (by omega)]
+  have hf : (Dir.dec == Dir.enc) = false := rfl
+  cases cx.dir
+  · simp [Except.map, hf, cfbDec_eq_spec E cx.bs h.bs_pos h.lenE input iv hiv]
+  · simp [Except.map, cfbEnc_eq_spec E cx.bs h.bs_pos h.lenE input iv hiv]
+
+/-- **OFB = SP 800-38A §6.4**, every message length, either direction of the context. -/
+theorem ofb_standard {cx : Cx} {E D : Bytes → Bytes} (h : Std cx E D) (iv input : Bytes)
+    (hm : cx.mode = 3) (hiv : iv.length = cx.bs) :
+    (ofb cx ⟨iv, 0⟩ input).map Prod.fst = .ok (Spec.ofb E iv (chunks cx.bs input)).flatten := by
+  rw [ofb_ok cx ⟨iv, 0⟩ input hm h.bs_pos hiv, h.str (by omega)]
+  simp [Except.map, ofb_eq_spec E cx.bs h.bs_pos h.lenE input iv hiv]
+
+/-- **CTR = SP 800-38A §6.5** over the library's counter blocks `T_j = LE(nonce) + j`
+(little-endian `8·bs`-bit increment, pre-incremented, wrapping), every message length,
+whatever the caller left in `stream_block`. -/
+theorem ctr_standard {cx : Cx} {E D : Bytes → Bytes} (h : Std cx E D) (nonce sb input : Bytes)
+    (hm : cx.mode = 4) (hn : nonce.length = cx.bs) (hsb : sb.length = cx.bs) :
+    (ctr cx ⟨nonce, 0, sb⟩ input).map Prod.fst =
+      .ok (Spec.ctr E nonce (chunks cx.bs input)).flatten := by
+  rw [ctr_ok cx ⟨nonce, 0, sb⟩ input hm h.bs_pos hn hsb, h.str (by omega)]
+  simp [Except.map, ctr_eq_spec E cx.bs h.bs_pos h.lenE input nonce sb hn]
+
+/-- the counter the CTR loop uses really is "+1 modulo 2^(8·bs), little endian" -/
+theorem incLE_value : ∀ b : Bytes, leVal (incLE b) = (leVal b + 1) % 2 ^ (8 * b.length)
+  | [] => by simp [incLE, leVal]
+  | x :: xs => by
+    have hx := x.isLt
+    have hv : leVal xs < 2 ^ (8 * xs.length) := by
+      clear hx
+      induction xs with
+      | nil => simp [leVal]
+      | cons y ys ih =>
+        have := y.isLt
+        simp only [leVal, List.length_cons, Nat.mul_add, Nat.pow_add]
+        omega
+    have hp : 2 ^ (8 * (xs.length + 1)) = 256 * 2 ^ (8 * xs.length) := by
+      rw [Nat.mul_add, Nat.pow_add]; omega
+    simp only [incLE, List.length_cons, hp]
+    split
+    · rename_i h
+      subst h
+      simp only [leVal, incLE_value xs]
+      have : (0xff#8).toNat = 255 := rfl
+      have z : (0x00#8).toNat = 0 := rfl
+      rw [this, z]
+      have e : 255 + 256 * leVal xs + 1 = 256 * (leVal xs + 1) := by omega
+      rw [e, Nat.mul_mod_mul_left]; omega
+    · rename_i h
+      have hne : x.toNat ≠ 255 := by
+        intro h'; apply h
+        apply BitVec.eq_of_toNat_eq; simpa using h'
+      have hlt : x.toNat + 1 < 256 := by omega
+      have h1 : (x + 1).toNat = x.toNat + 1 := by
+        simp [BitVec.toNat_add, Nat.mod_eq_of_lt hlt]
+      simp only [leVal, h1]
+      rw [Nat.mod_eq_of_lt (by omega)]; omega
+
+/-! ## Part A.2 — decryption inverts encryption -/
+
+/-- two contexts for the same key and mode, one encrypting, one decrypting -/
+structure Pair (cxe cxd : Cx) (E D : Bytes → Bytes) : Prop where
+  e : Std cxe E D
+  d : Std cxd E D
+  bs : cxd.bs = cxe.bs
+  mode : cxd.mode = cxe.mode
+  de : cxe.dir = .enc
+  dd : cxd.dir = .dec
+
+/-- **ECB: decrypt ∘ encrypt = id** on every whole number of blocks. -/
+theorem ecb_roundtrip {cxe cxd : Cx} {E D : Bytes → Bytes} (p : Pair cxe cxd E D) (m : Bytes)
+    (hm : cxe.mode = 0) (hl : m.length % cxe.bs = 0) :
+    ∃ c, ecb cxe m = .ok c ∧ ecb cxd c = .ok m := by
+  have hbe : cxe.blkF = E := by rw [p.e.blk (by omega), p.de]
+  have hbd : cxd.blkF = D := by rw [p.d.blk (by rw [p.mode]; omega), p.dd]
+  refine ⟨_, ecb_ok cxe m hm hl, ?_⟩
+  have hlen := ecbLoop_length cxe.blkF cxe.bs p.e.bs_pos (by rw [hbe]; exact p.e.lenE) m hl
+  rw [ecb_ok cxd _ (by rw [p.mode]; exact hm) (by rw [p.bs, hlen]; exact hl), p.bs, hbe, hbd,
+    ecbLoop_roundtrip E D cxe.bs p.e.bs_pos p.e.lenE p.e.inv m hl]
+
+/-- **CBC: decrypt ∘ encrypt = id** on every whole number of blocks, every IV. -/
+theorem cbc_roundtrip {cxe cxd : Cx} {E D : Bytes → Bytes} (p : Pair cxe cxd E D) (iv m : Bytes)
+    (hm : cxe.mode = 1) (hl : m.length % cxe.bs = 0) (hiv : iv.length = cxe.bs) :
+    ∃ c ive ivd, cbc cxe iv m = .ok (c, ive) ∧ cbc cxd iv c = .ok (m, ivd) := by
+  have hbe : cxe.blkF = E := by rw [p.e.blk (by omega), p.de]
+  have hbd : cxd.blkF = D := by rw [p.d.blk (by rw [p.mode]; omega), p.dd]
+  have hpos := p.e.bs_pos
+  have hblocks := chunks_all_len cxe.bs hpos m hl
+  have hcl := specCbcEnc_len E cxe.bs p.e.lenE (chunks cxe.bs m) iv hiv hblocks
+  have hclen : (Spec.cbcEnc E iv (chunks cxe.bs m)).flatten.length % cxe.bs = 0 :=
+    flatten_len_mod cxe.bs _ hcl
+  refine ⟨(Spec.cbcEnc E iv (chunks cxe.bs m)).flatten, (cbcEncBlocks E iv (chunks cxe.bs m)).2,
+    (cbcDecBlocks D iv (Spec.cbcEnc E iv (chunks cxe.bs m))).2, ?_, ?_⟩
+  · rw [cbc_ok cxe iv m hm hl hiv, p.de, hbe]
+    simp only []
+    rw [← cbcEnc_eq_spec]
+  · rw [cbc_ok cxd iv _ (by rw [p.mode]; exact hm) (by rw [p.bs]; exact hclen) (by rw [p.bs]; exact hiv),
+      p.dd, hbd, p.bs]
+    simp only []
+    rw [chunks_of_flatten cxe.bs hpos _ hcl]
+    congr 1
+    apply Prod.ext
+    · simp only []
+      rw [cbcDec_eq_spec, specCbc_roundtrip E D cxe.bs p.e.lenE p.e.inv _ iv hiv hblocks,
+        chunks_flatten cxe.bs hpos m hl]
+    · rfl
+
+/-- **CFB: decrypt ∘ encrypt = id for every length, from every carried state**, and both
+sides end in the same caller-held state (so they stay in step over further calls). -/
+theorem cfb_roundtrip {cxe cxd : Cx} {E D : Bytes → Bytes} (p : Pair cxe cxd E D) (s : IvState)
+    (m : Bytes) (hm : cxe.mode = 2) (ho : s.off < cxe.bs) (hiv : s.iv.length = cxe.bs) :
+    ∃ c s', cfb cxe s m = .ok (c, s') ∧ cfb cxd s c = .ok (m, s') := by
+  have hse : cxe.strF = E := p.e.str (by omega)
+  have hsd : cxd.strF = E := p.d.str (by rw [p.mode]; omega)
+  refine ⟨_, _, cfb_ok cxe s m hm ho hiv, ?_⟩
+  rw [cfb_ok cxd s _ (by rw [p.mode]; exact hm) (by rw [p.bs]; exact ho) (by rw [p.bs]; exact hiv),
+    p.bs, hse, hsd, p.de, p.dd]
+  exact congrArg Except.ok (cfbLoop_roundtrip E cxe.bs m s)
+
+/-- **OFB: applying the function twice from the same state = id**, every length, every state. -/
+theorem ofb_roundtrip {cxe cxd : Cx} {E D : Bytes → Bytes} (p : Pair cxe cxd E D) (s : IvState)
+    (m : Bytes) (hm : cxe.mode = 3) (ho : s.off < cxe.bs) (hiv : s.iv.length = cxe.bs) :
+    ∃ c s', ofb cxe s m = .ok (c, s') ∧ ofb cxd s c = .ok (m, s') := by
+  have hse : cxe.strF = E := p.e.str (by omega)
+  have hsd : cxd.strF = E := p.d.str (by rw [p.mode]; omega)
+  refine ⟨_, _, ofb_ok cxe s m hm ho hiv, ?_⟩
+  rw [ofb_ok cxd s _ (by rw [p.mode]; exact hm) (by rw [p.bs]; exact ho) (by rw [p.bs]; exact hiv),
+    p.bs, hse, hsd]
+  exact congrArg Except.ok (ofbLoop_roundtrip E cxe.bs m s)
+
+/-- **CTR: applying the function twice from the same state = id**, every length, every state. -/
+theorem ctr_roundtrip {cxe cxd : Cx} {E D : Bytes → Bytes} (p : Pair cxe cxd E D) (s : CtrState)
+    (m : Bytes) (hm : cxe.mode = 4) (ho : s.off < cxe.bs) (hn : s.nonce.length = cxe.bs)
+    (hsb : s.sb.length = cxe.bs) :
+    ∃ c s', ctr cxe s m = .ok (c, s') ∧ ctr cxd s c = .ok (m, s') := by
+  have hse : cxe.strF = E := p.e.str (by omega)
+  have hsd : cxd.strF = E := p.d.str (by rw [p.mode]; omega)
+  refine ⟨_, _, ctr_ok cxe s m hm ho hn hsb, ?_⟩
+  rw [ctr_ok cxd s _ (by rw [p.mode]; exact hm) (by rw [p.bs]; exact ho) (by rw [p.bs]; exact hn)
+    (by rw [p.bs]; exact hsb), p.bs, hse, hsd]
+  exact congrArg Except.ok (ctrLoop_roundtrip E cxe.bs m s)
+
+/-! ## Part A.3 — any sequence of chunks = one call -/
+
+/-- feeding a list of chunks to a stream-mode function, carrying the state -/
+def feed {σ : Type} (call : σ → Bytes → Except Err (Bytes × σ)) : σ → List Bytes → Except Err (Bytes × σ)
+  | s, [] => .ok ([], s)
+  | s, p :: ps =>
+    match call s p with
+    | .error e => .error e
+    | .ok (o1, s1) =>
+      match feed call s1 ps with
+      | .error e => .error e
+      | .ok (o2, s2) => .ok (o1 ++ o2, s2)
+
+/-- **CFB chunking**: every partition of the message into chunks (of any sizes, empty ones
+included), fed call by call with the carried `iv` / `iv_offset`, gives the bytes AND the
+final state of a single call — from every starting state, in both directions. -/
+theorem cfb_chunking {cx : Cx} {E D : Bytes → Bytes} (h : Std cx E D) (hm : cx.mode = 2)
+    (parts : List Bytes) : ∀ s : IvState, s.off < cx.bs → s.iv.length = cx.bs →
+    feed (cfb cx) s parts = cfb cx s parts.flatten := by
+  induction parts with
+  | nil => intro s ho hiv; rw [List.flatten_nil, cfb_ok cx s [] hm ho hiv]; rfl
+  | cons p ps ih =>
+    intro s ho hiv
+    have hF : ∀ b, b.length = cx.bs → (cx.strF b).length = cx.bs := by
+      rw [h.str (by omega)]; exact h.lenE
+    obtain ⟨h1, h2⟩ := cfbLoop_inv cx.strF cx.bs h.bs_pos (cx.dir == .enc) hF p s hiv ho
+    rw [List.flatten_cons, cfb_ok cx s _ hm ho hiv, cfbLoop_append]
+    simp only [feed]
+    rw [cfb_ok cx s p hm ho hiv]
+    simp only []
+    rw [ih _ h2 h1, cfb_ok cx _ _ hm h2 h1]
+
+/-- **OFB chunking** (same statement). -/
+theorem ofb_chunking {cx : Cx} {E D : Bytes → Bytes} (h : Std cx E D) (hm : cx.mode = 3)
+    (parts : List Bytes) : ∀ s : IvState, s.off < cx.bs → s.iv.length = cx.bs →
+    feed (ofb cx) s parts = ofb cx s parts.flatten := by
+  induction parts with
+  | nil => intro s ho hiv; rw [List.flatten_nil, ofb_ok cx s [] hm ho hiv]; rfl
+  | cons p ps ih =>
+    intro s ho hiv
+    have hF : ∀ b, b.length = cx.bs → (cx.strF b).length = cx.bs := by
+      rw [h.str (by omega)]; exact h.lenE
+    obtain ⟨h1, h2⟩ := ofbLoop_inv cx.strF cx.bs h.bs_pos hF p s hiv ho
+    rw [List.flatten_cons, ofb_ok cx s _ hm ho hiv, ofbLoop_append]
+    simp only [feed]
+    rw [ofb_ok cx s p hm ho hiv]
+    simp only []
+    rw [ih _ h2 h1, ofb_ok cx _ _ hm h2 h1]
+
+/-- **CTR chunking**: with the carried `nonce` / `nonce_offset` / `stream_block`. -/
+theorem ctr_chunking {cx : Cx} {E D : Bytes → Bytes} (h : Std cx E D) (hm : cx.mode = 4)
+    (parts : List Bytes) : ∀ s : CtrState, s.off < cx.bs → s.nonce.length = cx.bs →
+    s.sb.length = cx.bs → feed (ctr cx) s parts = ctr cx s parts.flatten := by
+  induction parts with
+  | nil => intro s ho hn hsb; rw [List.flatten_nil, ctr_ok cx s [] hm ho hn hsb]; rfl
+  | cons p ps ih =>
+    intro s ho hn hsb
+    have hF : ∀ b, b.length = cx.bs → (cx.strF b).length = cx.bs := by
+      rw [h.str (by omega)]; exact h.lenE
+    obtain ⟨h1, h2, h3⟩ := ctrLoop_inv cx.strF cx.bs h.bs_pos hF p s hn hsb ho
+    rw [List.flatten_cons, ctr_ok cx s _ hm ho hn hsb, ctrLoop_append]
+    simp only [feed]
+    rw [ctr_ok cx s p hm ho hn hsb]
+    simp only []
+    rw [ih _ h3 h1 h2, ctr_ok cx _ _ hm h3 h1 h2]
+
+/-- **ECB chunking**: chunks that are whole numbers of blocks. -/
+theorem ecb_chunking {cx : Cx} {E D : Bytes → Bytes} (h : Std cx E D) (hm : cx.mode = 0)
+    (a b : Bytes) (ha : a.length % cx.bs = 0) (hb : b.length % cx.bs = 0) :
+    ∃ oa ob, ecb cx a = .ok oa ∧ ecb cx b = .ok ob ∧ ecb cx (a ++ b) = .ok (oa ++ ob) := by
+  refine ⟨_, _, ecb_ok cx a hm ha, ecb_ok cx b hm hb, ?_⟩
+  rw [ecb_ok cx (a ++ b) hm (by rw [List.length_append, Nat.add_mod, ha, hb]; simp),
+    ecbLoop_append _ _ h.bs_pos a b ha]
+
+/-- **CBC chunking**: chunks that are whole numbers of blocks, carrying the `iv`. -/
+theorem cbc_chunking {cx : Cx} {E D : Bytes → Bytes} (h : Std cx E D) (hm : cx.mode = 1)
+    (iv a b : Bytes) (hiv : iv.length = cx.bs) (ha : a.length % cx.bs = 0)
+    (hb : b.length % cx.bs = 0) :
+    ∃ oa iva ob ivb, cbc cx iv a = .ok (oa, iva) ∧ cbc cx iva b = .ok (ob, ivb) ∧
+      cbc cx iv (a ++ b) = .ok (oa ++ ob, ivb) := by
+  have hab : (a ++ b).length % cx.bs = 0 := by rw [List.length_append, Nat.add_mod, ha, hb]; simp
+  have hF : ∀ x, x.length = cx.bs → (cx.blkF x).length = cx.bs := by
+    rw [h.blk (by omega)]; cases cx.dir
+    · exact h.lenD
+    · exact h.lenE
+  have hblocks := chunks_all_len cx.bs h.bs_pos a ha
+  rw [cbc_ok cx iv a hm ha hiv, cbc_ok cx iv (a ++ b) hm hab hiv, chunks_append cx.bs h.bs_pos a b ha]
+  cases hd : cx.dir
+  · -- decrypting: the carried iv is the last input block
+    have hiva : ∀ (bl : List Bytes) (iv : Bytes), iv.length = cx.bs → (∀ x ∈ bl, x.length = cx.bs) →
+        (cbcDecBlocks cx.blkF iv bl).2.length = cx.bs := by
+      intro bl
+      induction bl with
+      | nil => intro iv h _; exact h
+      | cons x xs ih => intro iv _ hx; exact ih x (hx x (by simp)) (fun y hy => hx y (by simp [hy]))
+    have := hiva _ iv hiv hblocks
+    refine ⟨(cbcDecBlocks cx.blkF iv (chunks cx.bs a)).1, (cbcDecBlocks cx.blkF iv (chunks cx.bs a)).2,
+      (cbcDecBlocks cx.blkF (cbcDecBlocks cx.blkF iv (chunks cx.bs a)).2 (chunks cx.bs b)).1,
+      (cbcDecBlocks cx.blkF (cbcDecBlocks cx.blkF iv (chunks cx.bs a)).2 (chunks cx.bs b)).2, rfl, ?_, ?_⟩
+    · rw [cbc_ok cx _ b hm hb this, hd]
+    · simp only []; rw [cbcDecBlocks_append]
+  · have hiva : ∀ (bl : List Bytes) (iv : Bytes), iv.length = cx.bs → (∀ x ∈ bl, x.length = cx.bs) →
+        (cbcEncBlocks cx.blkF iv bl).2.length = cx.bs := by
+      intro bl
+      induction bl with
+      | nil => intro iv h _; exact h
+      | cons x xs ih =>
+        intro iv hi hx
+        exact ih _ (hF _ (by simp [xorBytes_length, hi, hx x (by simp)])) (fun y hy => hx y (by simp [hy]))
+    have := hiva _ iv hiv hblocks
+    refine ⟨(cbcEncBlocks cx.blkF iv (chunks cx.bs a)).1, (cbcEncBlocks cx.blkF iv (chunks cx.bs a)).2,
+      (cbcEncBlocks cx.blkF (cbcEncBlocks cx.blkF iv (chunks cx.bs a)).2 (chunks cx.bs b)).1,
+      (cbcEncBlocks cx.blkF (cbcEncBlocks cx.blkF iv (chunks cx.bs a)).2 (chunks cx.bs b)).2, rfl, ?_, ?_⟩
+    · rw [cbc_ok cx _ b hm hb this, hd]
+    · simp only []; rw [cbcEncBlocks_append]
+
+/-! ## Part A.4 — invalid parameters are rejected -/
+
+/-- **ECB / CBC reject a length that is not a block multiple** (`MUGGLE_ERR_INVALID_PARAM`),
+for every context, IV and message — nothing is written. -/
+theorem ecb_rejects_length (cx : Cx) (input : Bytes) (hl : input.length % cx.bs ≠ 0) :
+    ecb cx input = .error .invalidParam := by
+  simp [ecb, checks_ecb, hl, bind, Except.bind]
+
+theorem cbc_rejects_length (cx : Cx) (iv input : Bytes) (hl : input.length % cx.bs ≠ 0) :
+    cbc cx iv input = .error .invalidParam := by
+  simp [cbc, checks_cbc, hl, bind, Except.bind]
+
+/-- **an offset outside the block is rejected** by CFB / OFB / CTR. -/
+theorem stream_rejects_offset (cx : Cx) (iv sb input : Bytes) (off : Nat) (ho : cx.bs ≤ off) :
+    cfb cx ⟨iv, off⟩ input = .error .invalidParam ∧ ofb cx ⟨iv, off⟩ input = .error .invalidParam ∧
+    ctr cx ⟨iv, off, sb⟩ input = .error .invalidParam := by
+  have : ¬ off < cx.bs := by omega
+  simp [cfb, ofb, ctr, checks_cfb, checks_ofb, checks_ctr, this, bind, Except.bind]
+
+/-- **a context set up for one mode is rejected by the functions of the other modes**. -/
+theorem rejects_wrong_mode (cx : Cx) (iv sb input : Bytes) (off : Nat) :
+    (cx.mode ≠ 0 → ecb cx input = .error .invalidParam) ∧
+    (cx.mode ≠ 1 → cbc cx iv input = .error .invalidParam) ∧
+    (cx.mode ≠ 2 → cfb cx ⟨iv, off⟩ input = .error .invalidParam) ∧
+    (cx.mode ≠ 3 → ofb cx ⟨iv, off⟩ input = .error .invalidParam) ∧
+    (cx.mode ≠ 4 → ctr cx ⟨iv, off, sb⟩ input = .error .invalidParam) := by
+  refine ⟨?_, ?_, ?_, ?_, ?_⟩ <;> intro h <;>
+    simp [ecb, cbc, cfb, ofb, ctr, checks_ecb, checks_cbc, checks_cfb, checks_ofb, checks_ctr, h,
+      bind, Except.bind]
+
+/-- the pointer parameters a mode function takes -/
+def paramsOf : Fn → List Param
+  | .ecb => [.ctx, .input, .output]
+  | .cbc => [.ctx, .input, .iv, .output]
+  | .cfb => [.ctx, .input, .iv, .off, .output]
+  | .ofb => [.ctx, .input, .iv, .off, .output]
+  | .ctr => [.ctx, .input, .iv, .off, .sb, .output]
+
+/-- **NULL pointers are rejected, never dereferenced** (the checks of des.c / tdes.c and
+of aes.c with fixes/C12-aes-null-checks.patch): whatever else is wrong with the call, if
+one of the function's pointer parameters is NULL the call returns an error code and does
+not crash. -/
+theorem null_rejected (fn : Fn) (p : Param) (hp : p ∈ paramsOf fn) (c : Call) (hn : c.isNull p = true) :
+    runChecks c (checksOf fn) = .error .nullParam ∨ runChecks c (checksOf fn) = .error .invalidParam := by
+  cases fn <;> simp only [paramsOf, List.mem_cons, List.not_mem_nil, or_false] at hp <;>
+    rcases hp with rfl | rfl | rfl | rfl | rfl | rfl <;>
+    simp only [checksOf, runChecks] <;>
+    (repeat' split) <;> simp_all
+
+/-- no call of any mode function can reach a NULL dereference -/
+theorem never_null_deref (fn : Fn) (c : Call) : runChecks c (checksOf fn) ≠ .error .nullDeref := by
+  cases fn <;> simp only [checksOf, runChecks] <;> (repeat' split) <;> simp
+
+/-- **negation witness for the pinned aes.c** (before the fix): `muggle_aes_cfb128` with
+`iv_offset == NULL` dereferences it; replayed on the implementation by
+corpus/C12/aes-cfb-null-iv_offset.ops (and -ofb-, -ctr-). -/
+theorem pinned_aes_null_deref :
+    runChecks { isNull := fun q => q == .off, modeOk := true, lenOk := true, offOk := true }
+      (checksOfAesPinned .cfb) = .error .nullDeref ∧
+    runChecks { isNull := fun q => q == .off, modeOk := true, lenOk := true, offOk := true }
+      (checksOfAesPinned .ofb) = .error .nullDeref ∧
+    runChecks { isNull := fun q => q == .iv, modeOk := true, lenOk := true, offOk := true }
+      (checksOfAesPinned .ctr) = .error .nullDeref := ⟨rfl, rfl, rfl⟩
+
+/-! ## Part B — the three set-key functions yield standard contexts for the FIPS ciphers -/
+
+/-- **FIPS-197: `InvCipher(Cipher(b, KeyExpansion(key)), KeyExpansion(key)) = b`** for every
+16-, 24- or 32-byte key and every 16-byte block. -/
+theorem aes_decrypt_encrypt (key b : Bytes) (hk : key.length = 16 ∨ key.length = 24 ∨ key.length = 32)
+    (hb : b.length = 16) : Aes.decryptBlock key (Aes.encryptBlock key b) = b :=
+  invCipher_cipher _ b (keyExpansion_len key hk) hb
+
+theorem aesSetKey_ok {op mode bits : Int} {key : Bytes} {cx : Cx} (h : aesSetKey op mode bits key = .ok cx) :
+    ∃ dir, dirOfNat op = some dir ∧ 0 ≤ mode ∧ mode < 5 ∧ (bits = 128 ∨ bits = 192 ∨ bits = 256) ∧
+      bits.toNat / 8 ≤ key.length ∧
+      cx = { bs := 16, dir := dir, mode := mode.toNat,
+             blkF := (match dir with
+               | .enc => Aes.cipher (Aes.keyExpansion (key.take (bits.toNat / 8)))
+               | .dec => Aes.invCipher (Aes.keyExpansion (key.take (bits.toNat / 8)))),
+             strF := Aes.cipher (Aes.keyExpansion (key.take (bits.toNat / 8))) } := by
+  unfold aesSetKey at h
+  split at h
+  · cases h
+  · rename_i dir hd
+    split at h
+    · cases h
+    · split at h
+      · cases h
+      · split at h
+        · cases h
+        · rename_i h1 h2 h3
+          injection h with h
+          exact ⟨dir, hd, by omega, by omega, by omega, by omega, h.symm⟩
+
+/-- **`muggle_aes_set_key` yields a standard context** for `E = Cipher`, `D = InvCipher` under
+the FIPS-197 key expansion of the first `bits/8` key bytes — for every key. -/
+theorem aes_context_standard {op mode bits : Int} {key : Bytes} {cx : Cx}
+    (h : aesSetKey op mode bits key = .ok cx) :
+    cx.bs = 16 ∧ Std cx (Aes.encryptBlock (key.take (bits.toNat / 8)))
+      (Aes.decryptBlock (key.take (bits.toNat / 8))) := by
+  obtain ⟨dir, _, _, _, hb, hl, rfl⟩ := aesSetKey_ok h
+  have hk : (key.take (bits.toNat / 8)).length = 16 ∨ (key.take (bits.toNat / 8)).length = 24 ∨
+      (key.take (bits.toNat / 8)).length = 32 := by
+    rw [List.length_take, Nat.min_eq_left hl]
+    rcases hb with rfl | rfl | rfl <;> decide
+  have hks := keyExpansion_len _ hk
+  refine ⟨rfl, ⟨Nat.zero_lt_succ 15, ?_, ?_, ?_, ?_, ?_⟩⟩
+  · intro _; cases dir <;> rfl
+  · intro _; rfl
+  · intro b hb'; exact cipher_length _ b hks hb'
+  · intro b hb'; exact invCipher_length _ b hks hb'
+  · intro b hb'; exact aes_decrypt_encrypt _ b hk hb'
+
+theorem desSetKey_ok {op mode : Int} {key : Bytes} {cx : Cx} (h : desSetKey op mode key = .ok cx) :
+    ∃ dir, dirOfNat op = some dir ∧ key.length = 8 ∧ 0 ≤ mode ∧ mode < 5 ∧
+      cx = { bs := 8, dir := dir, mode := mode.toNat,
+             blkF := Des.cryptBlock (desSchedule dir mode.toNat key),
+             strF := Des.cryptBlock (desSchedule dir mode.toNat key) } := by
+  unfold desSetKey at h
+  split at h
+  · cases h
+  · rename_i dir hd
+    split at h
+    · cases h
+    · split at h
+      · cases h
+      · rename_i h1 h2
+        injection h with h
+        exact ⟨dir, hd, by simpa using h1, by omega, by omega, h.symm⟩
+
+/-- **`muggle_des_set_key` yields a standard context** for FIPS 46-3 enciphering /
+deciphering under the key: the schedule is reversed exactly for a decrypting ECB / CBC
+context, and CFB / OFB / CTR contexts get the enciphering schedule in both directions. -/
+theorem des_context_standard {op mode : Int} {key : Bytes} {cx : Cx}
+    (h : desSetKey op mode key = .ok cx) :
+    cx.bs = 8 ∧ Std cx (Des.encryptBlock key) (Des.decryptBlock key) := by
+  obtain ⟨dir, _, _, _, _, rfl⟩ := desSetKey_ok h
+  refine ⟨rfl, ⟨Nat.zero_lt_succ 7, ?_, ?_, ?_, ?_, ?_⟩⟩
+  · intro hm
+    have hm' : mode.toNat ≤ 1 := hm
+    cases dir <;> simp [desSchedule, hm'] <;> rfl
+  · intro hm
+    have hm' : ¬ mode.toNat ≤ 1 := by have : 2 ≤ mode.toNat := hm; omega
+    simp [desSchedule, hm']; rfl
+  · intro b _; exact encryptBlock_length key b
+  · intro b _; exact decryptBlock_length key b
+  · intro b hb; exact des_decrypt_encrypt key b hb
+
+theorem tdesSetKey_ok {op mode : Int} {k1 k2 k3 : Bytes} {cx : Cx}
+    (h : tdesSetKey op mode k1 k2 k3 = .ok cx) :
+    ∃ dir, dirOfNat op = some dir ∧ 0 ≤ mode ∧ mode < 5 ∧
+      cx = { bs := 8, dir := dir, mode := mode.toNat,
+             blkF := (if mode ≤ 1 then
+                match dir with
+                | .enc => tdesCrypt (desSchedule .enc 0 k1) (desSchedule .dec 0 k2) (desSchedule .enc 0 k3)
+                | .dec => tdesCrypt (desSchedule .dec 0 k3) (desSchedule .enc 0 k2) (desSchedule .dec 0 k1)
+              else tdesCrypt (desSchedule .enc 0 k1) (desSchedule .dec 0 k2) (desSchedule .enc 0 k3)),
+             strF := (if mode ≤ 1 then
+                match dir with
+                | .enc => tdesCrypt (desSchedule .enc 0 k1) (desSchedule .dec 0 k2) (desSchedule .enc 0 k3)
+                | .dec => tdesCrypt (desSchedule .dec 0 k3) (desSchedule .enc 0 k2) (desSchedule .dec 0 k1)
+              else tdesCrypt (desSchedule .enc 0 k1) (desSchedule .dec 0 k2) (desSchedule .enc 0 k3)) } := by
+  unfold tdesSetKey at h
+  split at h
+  · cases h
+  · rename_i dir hd
+    split at h
+    · cases h
+    · split at h
+      · cases h
+      · rename_i h1 h2
+        injection h with h
+        exact ⟨dir, hd, by omega, by omega, h.symm⟩
+
+/-- **`muggle_tdes_set_key` yields a standard context** for TDEA (EDE) encryption
+`E_K3(D_K2(E_K1(·)))` and its inverse `D_K1(E_K2(D_K3(·)))`, for all three keys. -/
+theorem tdes_context_standard {op mode : Int} {k1 k2 k3 : Bytes} {cx : Cx}
+    (h : tdesSetKey op mode k1 k2 k3 = .ok cx) :
+    cx.bs = 8 ∧ Std cx (Des.tdesEncryptBlock k1 k2 k3) (Des.tdesDecryptBlock k1 k2 k3) := by
+  obtain ⟨dir, _, h0, _, rfl⟩ := tdesSetKey_ok h
+  have hE : tdesCrypt (desSchedule .enc 0 k1) (desSchedule .dec 0 k2) (desSchedule .enc 0 k3) =
+      Des.tdesEncryptBlock k1 k2 k3 := rfl
+  have hD : tdesCrypt (desSchedule .dec 0 k3) (desSchedule .enc 0 k2) (desSchedule .dec 0 k1) =
+      Des.tdesDecryptBlock k1 k2 k3 := rfl
+  refine ⟨rfl, ⟨Nat.zero_lt_succ 7, ?_, ?_, ?_, ?_, ?_⟩⟩
+  · intro hm
+    have hm' : mode ≤ 1 := by have : mode.toNat ≤ 1 := hm; omega
+    cases dir <;> simp [hm', hE, hD]
+  · intro hm
+    have hm' : ¬ mode ≤ 1 := by have : 2 ≤ mode.toNat := hm; omega
+    simp [hm', hE]
+  · intro b _; exact encryptBlock_length _ _
+  · intro b _; exact decryptBlock_length _ _
+  · intro b hb; exact tdes_decrypt_encrypt k1 k2 k3 b hb
+
+/-! ### key set-up rejects invalid parameters -/
+
+/-- `muggle_aes_set_key`: an operation other than 0/1, a mode outside 0..4, or a key size
+other than 128/192/256 bits is rejected. -/
+theorem aes_setkey_rejects (op mode bits : Int) (key : Bytes) :
+    ((op ≠ 0 ∧ op ≠ 1) → aesSetKey op mode bits key = .error .invalidParam) ∧
+    ((op = 0 ∨ op = 1) → (mode < 0 ∨ 5 ≤ mode) → aesSetKey op mode bits key = .error .invalidParam) ∧
+    ((op = 0 ∨ op = 1) → (0 ≤ mode ∧ mode < 5) → (bits ≠ 128 ∧ bits ≠ 192 ∧ bits ≠ 256) →
+      aesSetKey op mode bits key = .error .keySize) := by
+  refine ⟨?_, ?_, ?_⟩
+  · intro ⟨h0, h1⟩
+    have : dirOfNat op = none := by unfold dirOfNat; split <;> simp_all
+    simp [aesSetKey, this]
+  · intro ho hm
+    rcases ho with rfl | rfl <;> simp [aesSetKey, dirOfNat] <;> omega
+  · intro ho hm hb
+    have h1 : ¬ (mode < 0 ∨ mode ≥ 5) := by omega
+    have h2 : ¬ (bits = 128 ∨ bits = 192 ∨ bits = 256) := by omega
+    rcases ho with rfl | rfl <;> simp [aesSetKey, dirOfNat, h1, h2]
+
+/-- `muggle_des_set_key` / `muggle_tdes_set_key`: bad operation or mode is rejected. -/
+theorem des_setkey_rejects (op mode : Int) (key k1 k2 k3 : Bytes) (hk : key.length = 8)
+    (h1 : k1.length = 8) (h2 : k2.length = 8) (h3 : k3.length = 8) :
+    ((op ≠ 0 ∧ op ≠ 1) → desSetKey op mode key = .error .invalidParam ∧
+        tdesSetKey op mode k1 k2 k3 = .error .invalidParam) ∧
+    ((op = 0 ∨ op = 1) → (mode < 0 ∨ 5 ≤ mode) → desSetKey op mode key = .error .invalidParam ∧
+        tdesSetKey op mode k1 k2 k3 = .error .invalidParam) := by
+  refine ⟨?_, ?_⟩
+  · intro ⟨h0, h1'⟩
+    have : dirOfNat op = none := by unfold dirOfNat; split <;> simp_all
+    simp [desSetKey, tdesSetKey, this]
+  · intro ho hm
+    have hm' : mode < 0 ∨ mode ≥ 5 := by omega
+    rcases ho with rfl | rfl <;> simp [desSetKey, tdesSetKey, dirOfNat, hk, h1, h2, h3, hm']
+
+/-! ### pairs of contexts (same key, same mode, opposite directions) -/
+
+theorem aes_pair {mode bits : Int} {key : Bytes} {cxe cxd : Cx}
+    (he : aesSetKey 1 mode bits key = .ok cxe) (hd : aesSetKey 0 mode bits key = .ok cxd) :
+    Pair cxe cxd (Aes.encryptBlock (key.take (bits.toNat / 8))) (Aes.decryptBlock (key.take (bits.toNat / 8))) := by
+  have se := (aes_context_standard he).2
+  have sd := (aes_context_standard hd).2
+  obtain ⟨de, hde, _, _, _, _, rfl⟩ := aesSetKey_ok he
+  obtain ⟨dd, hdd, _, _, _, _, rfl⟩ := aesSetKey_ok hd
+  have : de = .enc := by simp [dirOfNat] at hde; exact hde.symm
+  have : dd = .dec := by simp [dirOfNat] at hdd; exact hdd.symm
+  subst_vars
+  exact ⟨se, sd, rfl, rfl, rfl, rfl⟩
+
+theorem des_pair {mode : Int} {key : Bytes} {cxe cxd : Cx}
+    (he : desSetKey 1 mode key = .ok cxe) (hd : desSetKey 0 mode key = .ok cxd) :
+    Pair cxe cxd (Des.encryptBlock key) (Des.decryptBlock key) := by
+  have se := (des_context_standard he).2
+  have sd := (des_context_standard hd).2
+  obtain ⟨de, hde, _, _, _, rfl⟩ := desSetKey_ok he
+  obtain ⟨dd, hdd, _, _, _, rfl⟩ := desSetKey_ok hd
+  have : de = .enc := by simp [dirOfNat] at hde; exact hde.symm
+  have : dd = .dec := by simp [dirOfNat] at hdd; exact hdd.symm
+  subst_vars
+  exact ⟨se, sd, rfl, rfl, rfl, rfl⟩
+
+theorem tdes_pair {mode : Int} {k1 k2 k3 : Bytes} {cxe cxd : Cx}
+    (he : tdesSetKey 1 mode k1 k2 k3 = .ok cxe) (hd : tdesSetKey 0 mode k1 k2 k3 = .ok cxd) :
+    Pair cxe cxd (Des.tdesEncryptBlock k1 k2 k3) (Des.tdesDecryptBlock k1 k2 k3) := by
+  have se := (tdes_context_standard he).2
+  have sd := (tdes_context_standard hd).2
+  obtain ⟨de, hde, _, _, rfl⟩ := tdesSetKey_ok he
+  obtain ⟨dd, hdd, _, _, rfl⟩ := tdesSetKey_ok hd
+  have : de = .enc := by simp [dirOfNat] at hde; exact hde.symm
+  have : dd = .dec := by simp [dirOfNat] at hdd; exact hdd.symm
+  subst_vars
+  exact ⟨se, sd, rfl, rfl, rfl, rfl⟩
+
+/-! ## Part C — end to end: from `set_key` to the standards, for every key (instances of A ∘ B) -/
+
+theorem aesSetKey_succeeds (op mode bits : Int) (key : Bytes) (ho : op = 0 ∨ op = 1)
+    (hm : 0 ≤ mode ∧ mode < 5) (hb : bits = 128 ∨ bits = 192 ∨ bits = 256)
+    (hk : bits.toNat / 8 ≤ key.length) : ∃ cx, aesSetKey op mode bits key = .ok cx := by
+  have h1 : ¬ (mode < 0 ∨ mode ≥ 5) := by omega
+  have h2 : ¬ key.length < bits.toNat / 8 := by omega
+  rcases ho with rfl | rfl <;> simp [aesSetKey, dirOfNat, h1, hb, h2]
+
+theorem desSetKey_succeeds (op mode : Int) (key : Bytes) (ho : op = 0 ∨ op = 1)
+    (hm : 0 ≤ mode ∧ mode < 5) (hk : key.length = 8) : ∃ cx, desSetKey op mode key = .ok cx := by
+  have h1 : ¬ (mode < 0 ∨ mode ≥ 5) := by omega
+  rcases ho with rfl | rfl <;> simp [desSetKey, dirOfNat, h1, hk]
+
+theorem tdesSetKey_succeeds (op mode : Int) (k1 k2 k3 : Bytes) (ho : op = 0 ∨ op = 1)
+    (hm : 0 ≤ mode ∧ mode < 5) (h1 : k1.length = 8) (h2 : k2.length = 8) (h3 : k3.length = 8) :
+    ∃ cx, tdesSetKey op mode k1 k2 k3 = .ok cx := by
+  have h : ¬ (mode < 0 ∨ mode ≥ 5) := by omega
+  rcases ho with rfl | rfl <;> simp [tdesSetKey, dirOfNat, h, h1, h2, h3]
+
+/-- **AES-CBC, end to end**: for every key size, key, IV and whole-block message the
+encrypting context produces exactly SP 800-38A CBC over the FIPS-197 cipher, and the
+decrypting context maps that ciphertext back to the message. -/
+theorem aes_cbc_end_to_end (bits : Int) (key iv m : Bytes)
+    (hb : bits = 128 ∨ bits = 192 ∨ bits = 256) (hk : key.length = bits.toNat / 8)
+    (hiv : iv.length = 16) (hm : m.length % 16 = 0) :
+    ∃ cxe cxd c, aesSetKey 1 1 bits key = .ok cxe ∧ aesSetKey 0 1 bits key = .ok cxd ∧
+      c = (Spec.cbcEnc (Aes.encryptBlock key) iv (chunks 16 m)).flatten ∧
+      (cbc cxe iv m).map Prod.fst = .ok c ∧ (cbc cxd iv c).map Prod.fst = .ok m := by
+  obtain ⟨cxe, he⟩ := aesSetKey_succeeds 1 1 bits key (by omega) (by omega) hb (by omega)
+  obtain ⟨cxd, hd⟩ := aesSetKey_succeeds 0 1 bits key (by omega) (by omega) hb (by omega)
+  have htake : key.take (bits.toNat / 8) = key := List.take_of_length_le (by omega)
+  have p := aes_pair he hd
+  rw [htake] at p
+  have hbs : cxe.bs = 16 := (aes_context_standard he).1
+  have hmode : cxe.mode = 1 := by
+    obtain ⟨_, _, _, _, _, _, rfl⟩ := aesSetKey_ok he; rfl
+  have hstd := cbc_standard p.e iv m hmode (by rw [hbs]; exact hm) (by rw [hbs]; exact hiv)
+  obtain ⟨c, ive, ivd, h1, h2⟩ := cbc_roundtrip p iv m hmode (by rw [hbs]; exact hm) (by rw [hbs]; exact hiv)
+  refine ⟨cxe, cxd, c, he, hd, ?_, ?_, ?_⟩
+  · rw [h1, p.de, hbs] at hstd
+    simpa [Except.map] using hstd
+  · rw [h1]; rfl
+  · rw [h2]; rfl
+
+/-- **Triple-DES CFB, end to end, chunked**: for all three keys, every IV, every message
+of every length and every way of cutting it into chunks, feeding the chunks to the
+encrypting context gives SP 800-38A CFB-64 over TDEA, and the decrypting context fed the
+whole ciphertext in one call returns the message. -/
+theorem tdes_cfb_end_to_end (k1 k2 k3 iv : Bytes) (parts : List Bytes)
+    (h1 : k1.length = 8) (h2 : k2.length = 8) (h3 : k3.length = 8) (hiv : iv.length = 8) :
+    ∃ cxe cxd c s', tdesSetKey 1 2 k1 k2 k3 = .ok cxe ∧ tdesSetKey 0 2 k1 k2 k3 = .ok cxd ∧
+      c = (Spec.cfbEnc (Des.tdesEncryptBlock k1 k2 k3) iv (chunks 8 parts.flatten)).flatten ∧
+      feed (cfb cxe) ⟨iv, 0⟩ parts = .ok (c, s') ∧ cfb cxd ⟨iv, 0⟩ c = .ok (parts.flatten, s') := by
+  obtain ⟨cxe, he⟩ := tdesSetKey_succeeds 1 2 k1 k2 k3 (by omega) (by omega) h1 h2 h3
+  obtain ⟨cxd, hd⟩ := tdesSetKey_succeeds 0 2 k1 k2 k3 (by omega) (by omega) h1 h2 h3
+  have p := tdes_pair he hd
+  have hbs : cxe.bs = 8 := (tdes_context_standard he).1
+  have hmode : cxe.mode = 2 := by
+    obtain ⟨_, _, _, _, rfl⟩ := tdesSetKey_ok he; rfl
+  have hchunk := cfb_chunking p.e hmode parts ⟨iv, 0⟩ (by rw [hbs]; exact Nat.zero_lt_succ 7) (by rw [hbs]; exact hiv)
+  have hstd := cfb_standard p.e iv parts.flatten hmode (by rw [hbs]; exact hiv)
+  obtain ⟨c, s', hc1, hc2⟩ := cfb_roundtrip p ⟨iv, 0⟩ parts.flatten hmode (by rw [hbs]; exact Nat.zero_lt_succ 7)
+    (by rw [hbs]; exact hiv)
+  refine ⟨cxe, cxd, c, s', he, hd, ?_, ?_, hc2⟩
+  · rw [hc1, p.de, hbs] at hstd
+    simpa [Except.map] using hstd
+  · rw [hchunk, hc1]
+
+/-! ## non-vacuity: concrete contexts satisfy the hypotheses used above -/
+
+/-- a standard AES-256 CTR context exists (all-zero key) -/
+example : ∃ cx, aesSetKey 1 4 256 (List.replicate 32 0) = .ok cx ∧ cx.bs = 16 ∧ cx.mode = 4 ∧
+    Std cx (Aes.encryptBlock (List.replicate 32 0)) (Aes.decryptBlock (List.replicate 32 0)) := by
+  obtain ⟨cx, h⟩ := aesSetKey_succeeds 1 4 256 (List.replicate 32 0) (by omega) (by omega) (by omega)
+    (by decide)
+  have hs := aes_context_standard h
+  obtain ⟨_, _, _, _, _, _, hcx⟩ := aesSetKey_ok h
+  exact ⟨cx, h, hs.1, by rw [hcx]; rfl, by simpa using hs.2⟩
+
+/-- a DES pair (weak key 0101..01, CBC) exists -/
+example : ∃ cxe cxd, desSetKey 1 1 (List.replicate 8 1) = .ok cxe ∧ desSetKey 0 1 (List.replicate 8 1) = .ok cxd ∧
+    Pair cxe cxd (Des.encryptBlock (List.replicate 8 1)) (Des.decryptBlock (List.replicate 8 1)) := by
+  obtain ⟨cxe, he⟩ := desSetKey_succeeds 1 1 (List.replicate 8 1) (by omega) (by omega) (by decide)
+  obtain ⟨cxd, hd⟩ := desSetKey_succeeds 0 1 (List.replicate 8 1) (by omega) (by omega) (by decide)
+  exact ⟨cxe, cxd, he, hd, des_pair he hd⟩
+
+/-- a non-trivial chunking: three chunks of sizes 3, 0, 18 starting in the middle of a block -/
+example : (([[1, 2, 3], [], List.replicate 18 7] : List Bytes).flatten.length = 21) := by decide
+
+/-- the counter wraps: incrementing the all-ones 64-bit nonce gives zero -/
+example : incLE (List.replicate 8 0xff#8) = List.replicate 8 0x00#8 := by decide
+
 end MgProof.C12
